@@ -39,6 +39,103 @@ func randKeys(r *rand.Rand, n int) []uint64 {
 	return out
 }
 
+// relativeShape returns a set built RELATIVE to a: a background that avoids a (nothing / sparse / dense / comb / the
+// whole complement) plus a sliver of a placed at an edge of one of a's runs (first / last value, first / last 64-bit
+// word, a few values at either end) -- or a itself minus such a sliver. Operations whose answer hinges on a tiny
+// overlap at a run boundary (Intersects, AndCardinality, And, AndNot, Equals, Xor) are then decided by that sliver.
+func relativeShape(r *rand.Rand, a iset, key uint64) iset {
+	if a.empty() {
+		return chunkShape(r, key)
+	}
+	base := key << 16
+	chunk := iset{span{base, base + 65535}}
+	inChunk := a.intersect(chunk)
+	if inChunk.empty() {
+		return chunkShape(r, key)
+	}
+	sp := inChunk[r.Intn(len(inChunk))]
+	var sl span
+	switch r.Intn(7) {
+	case 0:
+		sl = span{sp.hi, sp.hi}
+	case 1:
+		sl = span{sp.lo, sp.lo}
+	case 2: // the part of the run inside the word of its last value
+		sl = span{maxU64(sp.lo, sp.hi&^63), sp.hi}
+	case 3: // the part of the run inside the word of its first value
+		sl = span{sp.lo, minU64(sp.hi, sp.lo|63)}
+	case 4:
+		sl = span{maxU64(sp.lo, sp.hi-minU64(sp.hi-sp.lo, uint64(r.Intn(5)))), sp.hi}
+	case 5:
+		sl = span{sp.lo, minU64(sp.hi, sp.lo+uint64(r.Intn(5)))}
+	default: // somewhere inside
+		m := sp.lo + uint64(r.Int63n(int64(sp.hi-sp.lo+1)))
+		sl = span{m, m}
+	}
+	sliver := iset{sl}
+	outside := a.complementIn(base, base+65535)
+	if r.Intn(4) == 0 {
+		b := a.minus(sliver) // a without the sliver ...
+		if r.Intn(2) == 0 && !outside.empty() {
+			// ... and with as many values from outside a instead: same cardinality, different set
+			h, n := sliver.count128()
+			if h == 0 && n <= 64 {
+				var sps []span
+				for _, o := range outside {
+					for v := o.lo; v <= o.hi && uint64(len(sps)) < n; v++ {
+						sps = append(sps, span{v, v})
+					}
+					if r.Intn(2) == 0 && uint64(len(sps)) < n && o.hi > o.lo {
+						sps[len(sps)-1] = span{o.hi, o.hi}
+					}
+				}
+				b = b.union(normalize(sps))
+			}
+		}
+		return b
+	}
+	var bg iset
+	switch r.Intn(5) {
+	case 0: // nothing else
+	case 1: // sparse values outside a
+		var sps []span
+		for i, n := 0, 1+r.Intn(200); i < n; i++ {
+			v := base + uint64(r.Intn(65536))
+			sps = append(sps, span{v, v})
+		}
+		bg = normalize(sps).intersect(outside)
+	case 2: // dense scattered values outside a (bitmap storage)
+		var sps []span
+		for _, p := range r.Perm(65536)[:5000+r.Intn(20000)] {
+			sps = append(sps, span{base + uint64(p), base + uint64(p)})
+		}
+		bg = normalize(sps).intersect(outside)
+	case 3: // comb outside a
+		var sps []span
+		for v := uint64(r.Intn(2)); v < 65536; v += 2 {
+			sps = append(sps, span{base + v, base + v})
+		}
+		bg = normalize(sps).intersect(outside)
+	default: // everything outside a
+		bg = outside
+	}
+	return bg.union(sliver)
+}
+
+func maxU64(a, b uint64) uint64 {
+	if a > b {
+		return a
+	}
+	return b
+}
+
+func minU64(a, b uint64) uint64 {
+	if a < b {
+		return a
+	}
+	return b
+}
+
 // chunkShape returns a subset of chunk `key` of one of the storage-relevant shapes.
 func chunkShape(r *rand.Rand, key uint64) iset {
 	base := key << 16
@@ -182,7 +279,19 @@ func edgeShape(r *rand.Rand, key uint64) iset {
 	case 3:
 		return mk(0, 0, 65535, 65535)
 	case 4:
-		return mk(63, 64) // straddles a word edge
+		switch r.Intn(4) {
+		case 0:
+			return mk(63, 64) // straddles a word edge
+		case 1: // a run whose last value is bit 63 of a word
+			e := uint64(64*(1+r.Intn(1000)) + 63)
+			return mk(e-uint64(r.Intn(200)), e)
+		case 2: // a run whose first value is bit 0 of a word
+			a := uint64(64 * (1 + r.Intn(1000)))
+			return mk(a, a+uint64(r.Intn(200)))
+		default: // word-aligned on both sides
+			a := uint64(64 * (1 + r.Intn(900)))
+			return mk(a, a+uint64(64*(1+r.Intn(40)))-1)
+		}
 	case 5:
 		a := uint64(64 * (1 + r.Intn(1000)))
 		return mk(a-uint64(1+r.Intn(70)), a+uint64(r.Intn(70)))
